@@ -228,6 +228,36 @@ func (m *fieldMachine) vecOp(op string, a, b []*big.Int, lr int, off int, scalar
 	m.t.Emit(e)
 }
 
+func (m *fieldMachine) twoAdicSqrts() {
+	q := m.f.Q
+	one := big.NewInt(1)
+	qm1 := new(big.Int).Sub(q, one)
+	sAdic := 0
+	t := new(big.Int).Set(qm1)
+	for t.Bit(0) == 0 {
+		t.Rsh(t, 1)
+		sAdic++
+	}
+	half := new(big.Int).Rsh(qm1, 1)
+	g := big.NewInt(2)
+	for new(big.Int).Exp(g, half, q).Cmp(one) == 0 {
+		g.Add(g, one)
+	}
+	z := new(big.Int).Exp(g, t, q) // order 2^s
+	for j := 0; j <= sAdic && j <= 48; j++ {
+		// x has 2-adic order 2^(s-j), times a random element of odd order
+		u := new(big.Int).Exp(m.rng.Below(q), new(big.Int).Lsh(one, uint(sAdic)), q)
+		x := new(big.Int).Mul(z, u)
+		x.Mod(x, q)
+		m.load(0, m.f.ToMont(x))
+		m.step("Sqrt", 1, []int{0}, nil)
+		m.pred("Legendre", []int{0})
+		m.step("Inverse", 2, []int{0}, nil)
+		z.Mul(z, z).Mod(z, q)
+	}
+	m.dump()
+}
+
 var unaryOps = []string{"Neg", "Double", "Square", "Inverse", "Sqrt", "Set"}
 var binaryOps = []string{"Add", "Sub", "Mul", "Div"}
 var inplaceOps = []string{"Halve", "MulBy3", "MulBy5", "MulBy13"}
@@ -431,10 +461,9 @@ func runC01(args []string) {
 		for i := 0; i < nProg; i++ {
 			m.program(pool, 12)
 		}
-		// square roots: elements of every 2-adic order (g^(2^i)) and non-residues
-		if g, ok := f.Funcs["Generator"]; ok {
-			_ = g
-		}
+		// square roots: elements of every 2-adic order (Tonelli-Shanks takes a different number of
+		// rounds for each), built with math/big: q-1 = 2^s t, z = g^t for a non-residue g has order 2^s
+		m.twoAdicSqrts()
 		m.vectors(pool, lens)
 		for i := 0; i < 20; i++ {
 			m.step("SetRandom", 0, nil, nil)
